@@ -135,6 +135,10 @@ inductive Op
                                                -- router.AddHandler / AddNoPublisherHandler; `app = some g`: with the
                                                -- application-decorated (shared) subscriber object `g`
   | plugin (ps : List POp)                     -- router.AddPlugin(func(r) { ps })
+  | callerEdits                                -- the application edits the slices it passed (`ms...`, `decs...`) so far:
+                                               -- overwrites elements, appends on their spare capacity, hands them to
+                                               -- another router.  The router's lists are value copies made at
+                                               -- registration time (`append(r.list, arg...)`): nothing changes.
   | pubDec (ids : List Nat)                    -- router.AddPublisherDecorators(ids...)
   | subDec (ids : List Nat)                    -- router.AddSubscriberDecorators(ids...)
   | run                                        -- first: Run (which calls RunHandlers); later: RunHandlers
@@ -202,6 +206,7 @@ def step (s : St) : Op → Option St
   | .addHandler h p a =>
     if s.hs.any (·.name == h) then none else some { s with hs := s.hs ++ [⟨h, p, a, none⟩] }
   | .plugin ps => some { s with plugins := s.plugins ++ [ps] }
+  | .callerEdits => some s
   | .pubDec ids => some { s with pd := s.pd ++ ids }
   | .subDec ids => some { s with sd := s.sd ++ ids }
   | .run =>
